@@ -65,6 +65,8 @@ type State struct {
 	switches   int
 	noYield    bool
 	switched   bool // set when the current instruction gave up the CPU without completing
+	postYield  bool   // the current thread just released a lock: offer a switch before its next instruction
+	postSusp   []bool // thread was suspended at such a point (nothing pending: its next sync op yields normally)
 	spawned    []Value
 	crcApps    [][]*Term
 	pendA      []pendAssert
@@ -129,6 +131,8 @@ func (st *State) clone() *State {
 		n.globals[k] = v
 	}
 	n.threadMode, n.cur, n.switches, n.noYield = st.threadMode, st.cur, st.switches, st.noYield
+	n.postYield = st.postYield
+	n.postSusp = append([]bool(nil), st.postSusp...)
 	n.tdone = append([]bool(nil), st.tdone...)
 	n.tblock = append([]string(nil), st.tblock...)
 	n.spawned = append([]Value(nil), st.spawned...)
@@ -587,6 +591,19 @@ func (e *Engine) run(st *State) {
 				}
 			}
 			return
+		}
+		if st.postYield {
+			// pseudo-instruction after Unlock/RUnlock: the scheduler may switch
+			// before the releasing thread runs its next (possibly unsynchronised)
+			// instruction.  A fork re-executes this pseudo-instruction (the clone
+			// still has postYield set).
+			st.taken = st.taken[:0]
+			st.ivSeq, st.ivLen, st.ivNoYield = st.varSeq, len(st.vars), st.noYield
+			st.ivHLen, st.ivEvLen = len(st.hvars), len(st.events)
+			st.ivPcLen, st.ivCrcLen = len(st.pc), len(st.crcApps)
+			e.yieldAfter(st)
+			st.postYield = false
+			continue
 		}
 		f := e.top(st)
 		if f.unwinding {
@@ -1708,8 +1725,42 @@ func (e *Engine) switchTo(st *State, t int) {
 	st.frames = st.stacks[t]
 	st.stacks[t] = nil
 	st.cur = t
+	// a thread suspended in front of a synchronisation operation executes it
+	// when resumed; one suspended after a release has nothing pending
 	st.noYield = true
+	if t < len(st.postSusp) && st.postSusp[t] {
+		st.noYield = false
+		st.postSusp[t] = false
+	}
 	st.switched = true
+}
+
+// yieldAfter offers a context switch right after the current thread released a
+// lock (code after an Unlock is not protected any more; a data race there must
+// be observable by the other threads).
+func (e *Engine) yieldAfter(st *State) {
+	if !st.threadMode || len(st.frames) == 0 {
+		return
+	}
+	en := e.enabledOthers(st)
+	if len(en) == 0 || st.switches >= e.maxSwitch {
+		return
+	}
+	v := e.newVar(st, "sched", 64)
+	k, ok := e.chooseFresh(st, v, len(en)+1)
+	if !ok {
+		st.outcome = "assume-false"
+		return
+	}
+	if k == 0 {
+		return
+	}
+	st.switches++
+	for len(st.postSusp) < len(st.stacks) {
+		st.postSusp = append(st.postSusp, false)
+	}
+	st.postSusp[st.cur] = true
+	e.switchTo(st, en[k-1])
 }
 
 // yield is called before a synchronisation operation. It returns true when the
@@ -1850,6 +1901,9 @@ func (e *Engine) mutexOp(st *State, op string, p *Ptr, ci ssa.Value, fd bool) {
 			if st.tblock[t] == key {
 				st.tblock[t] = ""
 			}
+		}
+		if st.threadMode {
+			st.postYield = true
 		}
 	}
 	e.finish(st, ci, nil, fd)
